@@ -60,6 +60,9 @@
 (*   H6  templates never introduce a TOP-LEVEL definition of an introduced *)
 (*       identifier (R7RS leaves its visibility open); `x ... ...` and     *)
 (*       `(... ...)` are not R7RS-small / not generated.                   *)
+(*   H7  a non-list datum is an improper list of zero elements: the        *)
+(*       pattern (p ... . r) matches 5 with p = (), r = 5 (maintainer test *)
+(*       "improper list pattern, collapses to non-list"; chibi agrees).    *)
 (*   plus Lang.tla's D1-D8 for the evaluation of the expanded program.     *)
 (***************************************************************************)
 EXTENDS Lang
@@ -169,7 +172,9 @@ Match(p, f, cx) ==
          ELSE IF IsUnd(p) THEN Matched(<< >>)
          ELSE Matched(<< <<p, Lf(f)>> >>)
   ELSE IF Listy(p)
-    THEN (IF Listy(f) THEN MatchList(p.es, TailF(p), f.es, TailF(f), cx) ELSE NoMatch)
+    THEN (IF Listy(f) THEN MatchList(p.es, TailF(p), f.es, TailF(f), cx)
+          ELSE IF p.k = "dot" THEN MatchList(p.es, p.tl, << >>, f, cx)        \* H7
+          ELSE NoMatch)
   ELSE IF p = f THEN Matched(<< >>) ELSE NoMatch
 
 -----------------------------------------------------------------------------
@@ -235,7 +240,13 @@ Deno(id, bd, ms) == IF id \in bd THEN "local"
                     ELSE IF id.n \in DOMAIN ms THEN "macro"
                     ELSE IF id.n \in CoreForms THEN id.n
                     ELSE "global"
-HeadDeno(f, bd, ms) == IF f.k = "list" /\ f.es # << >> /\ IsId(f.es[1]) THEN Deno(f.es[1], bd, ms) ELSE "expr"
+\* denotation of the head of a compound form; a macro use may be an improper list (Steel and most
+\* implementations accept (m a . b); maintainer test "improper list pattern, tail arguments"),
+\* any other dotted form is a syntax error
+HeadDeno(f, bd, ms) ==
+  IF Listy(f) /\ f.es # << >> /\ IsId(f.es[1])
+    THEN LET d == Deno(f.es[1], bd, ms) IN IF f.k = "dot" /\ d # "macro" THEN "baddot" ELSE d
+    ELSE IF f.k = "dot" THEN "baddot" ELSE "expr"
 
 \* name of the core variable for a local binder identifier: distinct (name, marks) => distinct names,
 \* and never equal to a global name
@@ -355,7 +366,7 @@ XE(f, bd, ms, c) ==
     [] f.k = "id"   -> LET d == Deno(f, bd, ms) IN
                        IF d \in {"local", "global"} THEN XR(Var(VRef(f, bd)), c)
                        ELSE XBad(-1)                        \* keyword used as a variable
-    [] f.k = "list" /\ f.es # << >> ->
+    [] Listy(f) /\ f.es # << >> ->
        LET d == HeadDeno(f, bd, ms)
            n == Len(f.es)
            a == f.es
@@ -411,6 +422,7 @@ XE(f, bd, ms, c) ==
                                  XR(If(r.a[1], C(Void), Begin(Tail(r.a))), r.c)
          [] d = "cond" -> LET r == XCond(Tail(a), bd, ms, c) IN XR(Cond(r.a.cls, r.a.el), r.c)
          [] d \in {"define", "define-syntax"} -> XBad(-2)       \* definition in expression context
+         [] d = "baddot" -> XBad(-1)
          [] OTHER ->                                            \* application
               LET r == XSeq(a, bd, ms, c) IN XR(App(r.a[1], Tail(r.a)), r.c)
     [] f.k = "bad" -> XBad(-2)  \* ill-formed template: outside the domain
@@ -419,7 +431,7 @@ XE(f, bd, ms, c) ==
 -----------------------------------------------------------------------------
 (* 5. Rendering of source text.  Global user names carry the "@@" placeholder. *)
 GlobalNames == {"my-or", "swap!", "my-let1", "m-lam", "m-idef", "rep", "m-lets", "m-rec", "my-for",
-                "use-g", "use-g2", "helper", "gv", "use-kw", "m-outer", "m-inner", "acc", "defk", "defm",
+                "use-g", "use-g2", "helper", "gv", "use-kw", "m-outer", "m-inner", "sum-acc", "defk", "defm",
                 "gen", "my-cond", "def-it", "def-tmp", "fn0", "fn1", "mm", "my-let*", "m-do", "m-o2", "m-i2",
                 "m-two", "k-else", "wrap"}
 RId(n) == IF n \in GlobalNames THEN n \o "@@" ELSE n
@@ -528,6 +540,11 @@ CoreEntries ==
      Entry("user-binder",
        <<DefSyn("my-let1", << >>, <<Rule(Pat(<<y("v"), y("e"), y("body")>>), Let1(y("v"), y("e"), y("body")))>>)>>,
        Call("my-let1", <<y("tmp"), num(5), Call("list", <<y("tmp"), HOLE>>)>>), FALSE),
+     Entry("dotted-params-through-patvar",
+       <<DefSyn("my-let1", << >>, <<Rule(Pat(<<y("v"), y("e"), y("body")>>), Let1(y("v"), y("e"), y("body")))>>)>>,
+       Call("my-let1", <<y("tmp"), HOLE,
+                         L(<<Sl(<<y("lambda"), Scons(<<y("p")>>, y("rest")), Call("list", <<y("tmp"), y("p"), y("rest")>>)>>),
+                             num(1), num(2), num(3)>>)>>), FALSE),
      Entry("lambda-binder",
        <<DefSyn("m-lam", << >>,
           <<Rule(Pat(<<y("x")>>), L(<<Sl(<<y("lambda"), L(<<y("y")>>), Call("list", <<y("x"), y("y")>>)>>), num(10)>>))>>)>>,
@@ -575,7 +592,7 @@ CoreEntries ==
                       y("out")>>))>>)>>,
        Call("m-do", <<num(2), HOLE>>), FALSE),
      Entry("free-global",
-       <<Sl(<<y("define"), Scons(<<y("helper")>>, y("xs")), Call("cons", <<q(y("helper")), y("xs")>>)>>),
+       <<Sl(<<y("define"), Scons(<<y("helper")>>, y("xs")), Call("cons", <<q(y("hlp")), y("xs")>>)>>),
          Call("define", <<y("gv"), num(42)>>),
          DefSyn("use-g2", << >>, <<Rule(Pat(<<A>>), Call("helper", <<A, y("gv")>>))>>)>>,
        Call("use-g2", <<HOLE>>), FALSE),
@@ -589,11 +606,11 @@ CoreEntries ==
            <<Rule(Pat(<<y("x")>>), Let1(y("y"), num(100), Call("m-i2", <<Call("+", <<y("x"), y("y")>>)>>)))>>)>>,
        Call("m-o2", <<Sl(<<y("if"), HOLE, num(1000), num(0)>>)>>), FALSE),
      Entry("recursive-acc",
-       <<DefSyn("acc", << >>,
+       <<DefSyn("sum-acc", << >>,
           << Rule(Pat(<<y("e")>>), y("e")),
              Rule(Pat(<<y("e"), y("k"), y("r"), DOTS>>),
-                  Let1(y("t"), y("k"), Call("acc", <<Call("+", <<y("e"), y("t")>>), y("r"), DOTS>>))) >>)>>,
-       Call("acc", <<Sl(<<y("if"), HOLE, num(0), num(0)>>), num(1), num(2)>>), FALSE),
+                  Let1(y("t"), y("k"), Call("sum-acc", <<Call("+", <<y("e"), y("t")>>), y("r"), DOTS>>))) >>)>>,
+       Call("sum-acc", <<Sl(<<y("if"), HOLE, num(0), num(0)>>), num(1), num(2)>>), FALSE),
      Entry("macro-defining-const",
        <<DefSyn("defk", << >>,
           <<Rule(Pat(<<y("name"), y("v")>>), DefSyn("name", << >>, <<Rule(Pat(<< >>), y("v"))>>))>>),
@@ -609,7 +626,7 @@ CoreEntries ==
      Entry("literals-arrow", <<MyCond>>,
        Call("my-cond", <<L(<<Sbool(FALSE), num(1)>>), L(<<HOLE, y("=>"), y("list")>>), L(<<y("else"), num(9)>>)>>), FALSE),
      Entry("literals-else", <<MyCond>>,
-       Call("my-cond", <<L(<<Sbool(FALSE), num(1)>>), L(<<y("else"), HOLE>>), L(<<Sbool(TRUE), num(3)>>)>>), FALSE),
+       Call("my-cond", <<L(<<Sbool(FALSE), num(1)>>), L(<<y("else"), HOLE>>)>>), FALSE),
      Entry("body-define-user-name",
        <<DefSyn("def-it", << >>, <<Rule(Pat(<<y("n"), y("v")>>), Call("define", <<y("n"), y("v")>>))>>)>>,
        Sl(<<y("let"), Nil0, Call("def-it", <<y("w"), HOLE>>), Call("list", <<y("w")>>)>>), FALSE),
@@ -641,7 +658,8 @@ Lib == CoreEntries \o BuiltinEntries \o KwEntries
 \* entries whose macro names are pairwise distinct and whose hole is an expression: nesting family
 NestIdx == {i \in 1..Len(CoreEntries) : ~CoreEntries[i].argvar
                                         /\ CoreEntries[i].tag \notin {"for-loop-user-acc", "literals-else",
-                                                                       "macro-defining-const"}}
+                                                                       "macro-defining-const",
+                                                                       "dotted-params-through-patvar"}}
 
 RECURSIVE IdNames(_), IdNamesSeq(_)
 IdNames(f) == IF IsId(f) THEN {f.n}
@@ -664,11 +682,12 @@ Names(e) == IdNamesSeq(e.defs) \ Unbindable
 MacroNames(e) == {e.defs[i].es[2].n : i \in {j \in 1..Len(e.defs) : HeadIs(e.defs[j], "define-syntax")}}
                  \cup (IF \E i \in 1..Len(e.defs) : HeadIs(e.defs[i], "defk") \/ HeadIs(e.defs[i], "defm")
                        THEN {"gen"} ELSE {})
-Rel(e, n) == IF n \in PrimNames THEN "builtin"
-             ELSE IF n \in DerivedKw THEN "keyword"
-             ELSE IF n \in MacroNames(e) THEN "macro"
-             ELSE IF n \in {"helper", "gv"} THEN "global"
-             ELSE "local"
+\* how the spelling n relates to the definitions (mns = macro names they define): the tag carries it
+Rel(mns, n) == IF n \in PrimNames THEN "builtin"
+               ELSE IF n \in DerivedKw THEN "keyword"
+               ELSE IF n \in mns THEN "macro"
+               ELSE IF n \in {"helper", "gv"} THEN "global"
+               ELSE "local"
 
 (* 6b. Use-site contexts: how the user binds the spelling N around the use *)
 AllCtxs == {"none", "let", "lambda", "idef", "let*", "letrec", "nlet", "ifn", "fnparam"}
@@ -725,7 +744,8 @@ HygProgram(p) ==
 HygTag(p) ==
   LET e == Lib[p.e] IN
   (IF p.fam = "hyg" THEN "hyg/" \o e.tag ELSE "nest/" \o e.tag \o "+" \o Lib[p.e2].tag)
-  \o "/N=" \o p.n \o "/rel=" \o (IF p.cx = "none" THEN "none" ELSE Rel(e, p.n))
+  \o "/N=" \o p.n \o "/rel=" \o (IF p.cx = "none" THEN "none"
+                                     ELSE Rel(MacroNames(e) \cup (IF p.fam = "nest" THEN MacroNames(Lib[p.e2]) ELSE {}), p.n))
   \o "/V=" \o p.v \o "/cx=" \o p.cx \o "/arg=" \o p.arg \o "/pl=" \o p.pl
 
 (* 6c. Matcher family: pattern grammar x input grammar.  The template is     *)
@@ -734,8 +754,8 @@ HygTag(p) ==
 (*     computed; a use no rule matches must be a syntax error.               *)
 CONSTANTS ELEMKINDS,   \* element pattern kinds used (subset of AllElemKinds)
           INKINDS      \* input element kinds used (subset of AllInKinds)
-AllElemKinds == {"v", "u", "k", "c", "l2", "le", "lbe", "ld"}
-AllInKinds == {"1", "x", "k", "7", "l0", "l1", "l2", "l3", "ll", "d", "lk"}
+AllElemKinds == {"v", "u", "k", "c", "l2", "le", "lbe", "ld", "lde"}
+AllInKinds == {"1", "x", "k", "7", "l0", "l1", "l2", "l3", "ll", "d", "d3", "lk"}
 SeqsUpTo(S, n) == UNION {[1..m -> S] : m \in 0..n}
 PV(i) == y("p" \o ToString(i))
 QV(i) == y("q" \o ToString(i))
@@ -749,6 +769,7 @@ PElem(kind, i) ==
     [] kind = "le" -> L(<<PV(i), DOTS>>)            \* (p ...)
     [] kind = "lbe" -> L(<<PV(i), QV(i), DOTS>>)    \* (p q ...)
     [] kind = "ld" -> Scons(<<PV(i)>>, QV(i))       \* (p . q)
+    [] kind = "lde" -> Scons(<<PV(i), DOTS>>, QV(i)) \* (p ... . q)
 Frag(kind, i) ==     \* how the template shows what the element bound (0 or 1 forms)
   CASE kind = "v" -> <<PV(i)>>
     [] kind \in {"u", "k", "c"} -> << >>
@@ -756,6 +777,7 @@ Frag(kind, i) ==     \* how the template shows what the element bound (0 or 1 fo
     [] kind = "le" -> <<L(<<PV(i), DOTS>>)>>
     [] kind = "lbe" -> <<L(<<QV(i), DOTS, PV(i)>>)>>
     [] kind = "ld" -> <<L(<<QV(i), PV(i)>>)>>
+    [] kind = "lde" -> <<L(<<QV(i), PV(i), DOTS>>)>>
 \* pt = [pe |-> sequence of element kinds, ell |-> index of the element followed by `...` (0: none),
 \*       ptl |-> dotted tail variable r]
 RECURSIVE PatElems(_, _), PatFrags(_, _)
@@ -777,6 +799,7 @@ InElem(kind) ==
     [] kind = "l3" -> L(<<num(1), num(2), num(3)>>)
     [] kind = "ll" -> L(<<L(<<num(1), num(2)>>), L(<<num(3)>>)>>)
     [] kind = "d" -> Scons(<<num(1)>>, num(2))
+    [] kind = "d3" -> Scons(<<num(1), num(2)>>, num(3))
     [] kind = "lk" -> L(<<KW, num(1)>>)
 InUse(ie, itl) == Scons(<<y("mm")>> \o [i \in 1..Len(ie) |-> InElem(ie[i])], IF itl THEN num(9) ELSE Nil0)
 
@@ -784,9 +807,6 @@ PatSet == {[pe |-> pe, ell |-> ell, ptl |-> ptl] :
              pe \in SeqsUpTo(ELEMKINDS, PATLEN), ell \in 0..PATLEN, ptl \in BOOLEAN}
 PatValid(pt) == pt.ell <= Len(pt.pe)
 \* sh: the use is inside (let ((kw 0)) ...): the user has shadowed the literal
-MatchParams ==
-  {[fam |-> "match", pt |-> pt, ie |-> ie, itl |-> itl, sh |-> sh] :
-     pt \in {x \in PatSet : PatValid(x)}, ie \in SeqsUpTo(INKINDS, INLEN), itl \in BOOLEAN, sh \in BOOLEAN}
 MatchValid(p) == p.sh => (\E i \in 1..Len(p.pt.pe) : p.pt.pe[i] = "k") /\ (\E i \in 1..Len(p.ie) : p.ie[i] \in {"k", "lk"})
 
 \* first matching rule wins: two rules from a fixed list of overlapping patterns
@@ -804,11 +824,6 @@ PairPats == << [pe |-> << >>, ell |-> 0, ptl |-> FALSE],
                [pe |-> <<"v">>, ell |-> 0, ptl |-> TRUE],
                [pe |-> << >>, ell |-> 0, ptl |-> TRUE],
                [pe |-> <<"l2">>, ell |-> 1, ptl |-> FALSE] >>
-PairParams ==
-  IF ~PAIRS THEN {}
-  ELSE {[fam |-> "pair", a |-> a, b |-> b, ie |-> ie, itl |-> itl] :
-          a \in 1..Len(PairPats), b \in 1..Len(PairPats), ie \in SeqsUpTo(INKINDS, INLEN), itl \in BOOLEAN}
-
 MatchProgram(p) ==
   LET rules == IF p.fam = "match" THEN <<PatRule(p.pt, "r1")>>
                ELSE <<PatRule(PairPats[p.a], "r1"), PatRule(PairPats[p.b], "r2")>>
@@ -827,11 +842,15 @@ TagOf(p)   == IF p.fam \in {"hyg", "nest"} THEN HygTag(p) ELSE MatchTag(p)
 (* 7. Top-level state machine.  phase = "expand": source unit hui is being   *)
 (* processed form by form; finished units are appended to Lang's `units`;    *)
 (* then phase = "run" hands over to Lang's machine.                          *)
+\* (nested quantifiers rather than one big set: TLC enumerates them without building the product)
 HInit ==
   /\ \/ \E p \in HygParams : HygValid(p) /\ hc = p
      \/ \E p \in NestParams : NestValid(p) /\ hc = p
-     \/ \E p \in MatchParams : MatchValid(p) /\ hc = p
-     \/ \E p \in PairParams : hc = p
+     \/ \E pt \in PatSet : \E ie \in SeqsUpTo(INKINDS, INLEN) : \E itl, sh \in BOOLEAN :
+           LET p == [fam |-> "match", pt |-> pt, ie |-> ie, itl |-> itl, sh |-> sh] IN
+           PatValid(pt) /\ MatchValid(p) /\ hc = p
+     \/ PAIRS /\ \E a, b \in 1..Len(PairPats) : \E ie \in SeqsUpTo(INKINDS, INLEN) : \E itl \in BOOLEAN :
+           hc = [fam |-> "pair", a |-> a, b |-> b, ie |-> ie, itl |-> itl]
   /\ hui = 0 /\ todo = << >> /\ cur = << >> /\ macros = [n \in {} |-> 0] /\ ctr = 0 /\ synerr = << >>
   /\ phase = "expand" /\ bstack = << >> /\ nodes = 0 /\ units = << >> /\ InitCommon
 
@@ -857,7 +876,7 @@ TopStep ==
                        ELSE /\ ctr' = -1 /\ UNCHANGED <<todo, cur, macros>>
           [] d = "begin" -> /\ todo' = Tail(f.es) \o Tail(todo) /\ UNCHANGED <<cur, macros, ctr>>
           [] d = "define-syntax" ->
-               IF IsDefSyntaxShape(f)
+               IF IsDefSyntaxShape(f) /\ f.es[2].m = << >> /\ f.es[2].n \in GlobalNames      \* H6
                  THEN /\ macros' = [n \in (DOMAIN macros) \cup {f.es[2].n} |->
                                       IF n = f.es[2].n THEN MacroOf(f) ELSE macros[n]]
                       /\ todo' = Tail(todo) /\ UNCHANGED <<cur, ctr>>
